@@ -179,7 +179,7 @@ def run_sideb(pid, specs, props_filter=None, label='sideB', determinism=False):
     rc, out, err = sh([wire, 'gen', './...'], mod)
     if 'panic:' in err or 'goroutine ' in err:
         m = re.search(r'panic: [^\n]*', err)
-        res['confirmed'].append(dict(cls='C20:wire panicked', props=['C20'], msg='wire gen crashed on the corpus: %s' % (m.group(0) if m else err[-300:]),
+        res['confirmed'].append(dict(cls='C20,C10:wire panicked', props=['C20', 'C10'], msg='wire gen crashed on a corpus of well-formed programs: %s' % (m.group(0) if m else err[-300:]),
                                      artifact_dir=None, model=None, harness=label))
         for c in res['confirmed']:
             c['class'] = c['cls']
